@@ -325,14 +325,43 @@ EX_WB = {
 }
 
 
+DYN_PROBES = [["now()", "text"], ["today()", "date"], ["1 + 2", "integer"], ["${q} + 1", "integer"], ["abc", "text"],
+              ["2020-01-01", "date"], ["a - b", "text"], ["uuid()", "text"], ["-1", "integer"], ["x | y", "text"]]
+
+
+def lexer_tables_pinned(ctx) -> bool:
+    """Model-side question only (the implementation is not consulted): does `Lexer.defaultIsDynamic` on the tables
+    regenerated from this tree classify a probe set as the pinned lexicon does (`Lexer.dynamicPinned`, the one C10's
+    theorems are about)?  When the translator cannot read `default_is_dynamic` of the tree (e.g. the function was
+    restructured and the C10 slice has not followed yet) the regenerated sets are empty and every default is `static`
+    for the model: the C10 check reports that; this stream then withholds `default` cells instead of reporting C10's
+    pending model update once per workbook."""
+    try:
+        act = [ctx.driver.call("lexer.dynamic", s=s, type=t) for s, t in DYN_PROBES]
+        pin = ctx.driver.call("lexer.pinned", items=DYN_PROBES)
+    except vcore.Infra:
+        return True
+    return [a is True for a in act] == [bool(x) for x in pin]
+
+
 def e2e_corr(ctx, n: int, big: bool = False, record: bool = False) -> None:
     """`n` generated workbooks through pyxform and through `convert.model`; byte-level comparison."""
+    pinned = lexer_tables_pinned(ctx)
+    if not pinned:
+        ctx.notes["e2e_default_cells_withheld"] = (
+            "Lexer.defaultIsDynamic on the regenerated tables differs from the pinned lexicon on the probe set: "
+            "`default` cells are withheld from the generated workbooks (C10's model / translator has to follow this tree)")
     before = ctx.dist.get("e2e:byte-exact", 0)
     e2e_case(ctx, copy.deepcopy(EX_WB), record=record)
     if ctx.dist.get("e2e:byte-exact", 0) != before + 1 and not ctx.mismatches:
         ctx.mismatch("e2e: the example workbook of Proofs/Convert.lean is not converted byte-exactly", {"form": EX_WB}, "?", "?")
     for _ in range(n):
-        e2e_case(ctx, fragment_form(ctx.rng, big=big), record=record)
+        form = fragment_form(ctx.rng, big=big)
+        if not pinned:
+            for r_ in form["survey"]:
+                if r_.pop("default", None) is not None:
+                    ctx.count("e2e:default cell withheld (Lexer tables not the pinned ones)")
+        e2e_case(ctx, form, record=record)
     tot = ctx.dist.get("e2e:answered", 0) + ctx.dist.get("e2e:unsupported", 0)
     ctx.notes["e2e"] = {
         "forms": tot,
